@@ -14,11 +14,11 @@ CONSTANTS
  DelimSets <- DNone
  Ctxs <- CxLive
  NonZero <- BF
- NSOut <- NSRelayOther
+ NSOut <- NSRelay
  WErrs <- ENone
  CWRes <- CWOk
- CRRes <- CRAll
- SRErrs <- SRAll
+ CRRes <- CRTO
+ SRErrs <- SRTimeout
  HRes <- HResp
  SWErrs <- ENone
  MaxTime = 2
